@@ -3,7 +3,7 @@
    quantifies over all worlds [w] (any plan list: raw byte strings of any content and length,
    edited acknowledges, any number of pending acknowledges, libusb error codes on send / receive,
    any memory) and all handle states [c].  Model: model/Control.v. *)
-From Cam Require Import Outcome Bytes Chunks Cmd Ack CmdLayout GenCPLayout Control P_C09 P_C08 P_C06 P_C07 ManifestSpec P_C14b P_C07b.
+From Cam Require Import Outcome Bytes Chunks Cmd Ack CmdLayout GenCPLayout Control P_C09 P_C08 P_C06 P_C07 ManifestSpec P_C14b P_C07b P_C07c.
 
 (* decoding is total on arbitrary input *)
 Theorem C07_decode_total : forall bs, parse_ack bs <> Panic.
@@ -95,3 +95,110 @@ Print Assumptions C07_kind_checked.
 Theorem C07_short_payload_v0_refuted : exists n data, read_step_v0 n data = Panic.
 Proof. exact short_payload_v0_refuted. Qed.
 Print Assumptions C07_short_payload_v0_refuted.
+
+(* ---- every operation, every sequence, a hostile device (proofs/P_C07c.v) ------------------------------
+
+   The ONLY assumption on the device is [wbytes w]: what it holds and sends consists of bytes (its memory
+   segments, the current acknowledge, raw replies, the bytes that edits put into an acknowledge); the plans
+   are arbitrary.  [hinv c]: limits below 2^32, request id below 2^16, cached register values below 2^64.
+   [sound true m Q]: from any state with hinv and wbytes, m does not panic, ends in such a state again, and
+   an Ok value satisfies Q. *)
+
+(* the device side keeps the world made of bytes; the handle sends bytes and decodes sub-slices *)
+Theorem C07_device_side_bytes :
+  (forall w cmd, wbytes w -> bytes_ok cmd ->
+     bytes_ok (fst (conform w cmd)) /\ wbytes (snd (conform w cmd))) /\
+  (forall w cmd, wbytes w -> bytes_ok cmd -> wbytes (snd (on_send w cmd))) /\
+  (forall w n, wbytes w ->
+     wbytes (snd (on_recv w n)) /\ (forall bs, fst (on_recv w n) = Ok bs -> bytes_ok bs)) /\
+  (forall cm id, cmd_bytes cm -> bytes_ok (serialize_vec cm id)) /\
+  (forall a d cm, bytes_ok d -> mk_write a d = Ok cm -> cmd_bytes cm) /\
+  (forall bs a, bytes_ok bs -> parse_ack bs = Ok a -> bytes_ok (a_raw_scd a)) /\
+  (forall a d, bytes_ok (a_raw_scd a) -> view_data a = Ok d -> bytes_ok d).
+Proof. exact device_side_bytes. Qed.
+Print Assumptions C07_device_side_bytes.
+
+(* C07_read_total without its side condition: the handle invariant supplies it *)
+Theorem C07_read_total_inv : forall c w a n, hinv c ->
+  exists x s', ctl_read a n (c, w) = (x, s') /\ x <> Panic /\ (forall d, x = Ok d -> 0 <= n -> zlen d = n).
+Proof. exact ctl_read_total_inv. Qed.
+Print Assumptions C07_read_total_inv.
+
+(* every operation of the model, with what its Ok result is known to be: read data are bytes of the
+   requested length, a 4 / 8 byte register is below 2^32 / 2^64 (so the limits adopted in open are) *)
+Theorem C07_every_operation_sound :
+  sound true ctl_open (fun _ => True) /\
+  sound true ctl_close (fun _ => True) /\
+  (forall a n, sound true (ctl_read a n) (fun d => bytes_ok d /\ (0 <= n -> zlen d = n))) /\
+  (forall a data, bytes_ok data -> sound true (ctl_write a data) (fun _ => True)) /\
+  (forall a, sound true (read_reg a 4) is_u32) /\
+  (forall a, sound true (read_reg a 8) is_u64) /\
+  sound true h_abrm is_u64 /\
+  sound true h_sbrm (fun s => is_u64 (fst s) /\ is_u64 (snd s)) /\
+  sound true h_sirm is_u64 /\
+  sound true ctl_enable_streaming (fun _ => True) /\
+  sound true ctl_disable_streaming (fun _ => True) /\
+  sound true stream_params (fun l => Forall is_u32 l).
+Proof. exact every_operation_sound. Qed.
+Print Assumptions C07_every_operation_sound.
+
+(* (a) no operation panics ... *)
+Theorem C07_every_operation_total : forall o c w, op_ok o -> hinv c -> wbytes w ->
+  fst (run_op o (c, w)) <> KPanic.
+Proof. exact op_no_panic. Qed.
+Print Assumptions C07_every_operation_total.
+
+(* ... (b) and it ends in a state satisfying the invariant and byte-well-formedness again *)
+Theorem C07_invariant_kept : forall o c w, op_ok o -> hinv c -> wbytes w ->
+  hinv (fst (snd (run_op o (c, w)))) /\ wbytes (snd (snd (run_op o (c, w)))).
+Proof. exact op_invariant_kept. Qed.
+Print Assumptions C07_invariant_kept.
+
+(* any sequence of operations on a fresh handle: no operation panics, the invariant holds at the end *)
+Theorem C07_sequences_total : forall os w, wbytes w -> Forall op_ok os ->
+  Forall (fun k => k <> KPanic) (fst (run_ops os (ctl_init, w))) /\
+  hinv (fst (snd (run_ops os (ctl_init, w)))) /\ wbytes (snd (snd (run_ops os (ctl_init, w)))).
+Proof. exact sequences_total. Qed.
+Print Assumptions C07_sequences_total.
+
+(* ... and after each operation of the sequence (run_ops of a prefix is the state reached by the long run) *)
+Theorem C07_sequences_invariant_after_each : forall os k w, wbytes w -> Forall op_ok os ->
+  hinv (fst (snd (run_ops (firstn k os) (ctl_init, w)))) /\
+  wbytes (snd (snd (run_ops (firstn k os) (ctl_init, w)))).
+Proof. exact sequences_invariant_after_each. Qed.
+Print Assumptions C07_sequences_invariant_after_each.
+
+Theorem C07_run_ops_app : forall os1 os2 s,
+  run_ops (os1 ++ os2) s =
+  (fst (run_ops os1 s) ++ fst (run_ops os2 (snd (run_ops os1 s))), snd (run_ops os2 (snd (run_ops os1 s)))).
+Proof. exact run_ops_app. Qed.
+Print Assumptions C07_run_ops_app.
+
+(* non-vacuity: a device whose SBRM holds limits of 0xFFFFFFFF and that answers with raw garbage, libusb
+   errors on send and on receive, pending acknowledges for ever, a truncated header, a wrong request id and
+   an overstated payload length: it satisfies the hypotheses, the handle adopts its limits, every attack
+   ends in an error of the expected class, and the handle keeps working in between *)
+Theorem C07_hostile_example :
+  wbytes hostile /\ Forall op_ok hostile_ops /\
+  fst (run_ops hostile_ops (ctl_init, hostile)) =
+    [KErr CE_NOT_OPENED; KOk; KErr CE_IO; KErr CE_DISCONNECTED; KErr CE_TIMEOUT; KErr CE_IO; KErr CE_IO;
+     KErr CE_IO; KErr CE_IO; KOk; KErr CE_IO; KOk; KErr CE_NOT_OPENED] /\
+  c_max_ack (fst (snd (run_ops hostile_ops (ctl_init, hostile)))) = 4294967295 /\
+  c_max_cmd (fst (snd (run_ops hostile_ops (ctl_init, hostile)))) = 4294967295.
+Proof. exact hostile_example. Qed.
+Print Assumptions C07_hostile_example.
+
+Theorem C07_hostile_zero_limits :
+  wbytes hostile0 /\
+  fst (run_ops [OOpen; ORead 0 4; OWrite 0 [1]; OSirm; OClose] (ctl_init, hostile0)) =
+    [KOk; KErr CE_IO; KErr CE_IO; KErr CE_IO; KOk].
+Proof. exact hostile0_example. Qed.
+Print Assumptions C07_hostile_zero_limits.
+
+(* the hypothesis is needed in the model (whose byte strings are lists of integers): a "device" holding an
+   integer that is not a byte makes the limit register read as 2^72 and the next read panics.  The
+   transport delivers u8, so no such device exists. *)
+Theorem C07_bytes_hypothesis_needed :
+  ~ wbytes not_bytes /\ fst (run_ops [OOpen; ORead 0 4] (ctl_init, not_bytes)) = [KOk; KPanic].
+Proof. exact wbytes_needed. Qed.
+Print Assumptions C07_bytes_hypothesis_needed.
